@@ -231,6 +231,20 @@ func (d *dealer) register(callee *wamp.Session, msg *wamp.Register) {
 	}
 
 	invoke, _ := wamp.AsString(msg.Options[wamp.OptInvoke])
+	// Only accept invocation policies that the dealer knows how to handle
+	// when selecting a callee.
+	switch invoke {
+	case "", wamp.InvokeSingle, wamp.InvokeFirst, wamp.InvokeLast, wamp.InvokeRoundRobin, wamp.InvokeRandom:
+	default:
+		d.trySend(callee, &wamp.Error{
+			Type:      msg.MessageType(),
+			Request:   msg.Request,
+			Details:   wamp.Dict{},
+			Error:     wamp.ErrInvalidArgument,
+			Arguments: wamp.List{fmt.Sprint("invalid invocation policy ", invoke)},
+		})
+		return
+	}
 	forwardTimeout, _ := msg.Options[wamp.OptForwardTimeout].(bool)
 	var metaPubs []*wamp.Publish
 	done := make(chan struct{})
